@@ -63,6 +63,82 @@ CLAIMED = {
          "(RC::make_mut) is not modelled: clone independence is a model-level theorem plus a correspondence check over interleaved "
          "multi-handle histories. V = Expression is correspondence-only. Widths below 2^63 bits.",
     technique="Lean 4 proof of a mirror model (invariant + refinement to a byte array) + differential correspondence check"),
+ "C20": dict(
+    category="proof",
+    text="The descriptor / calling-convention / lifter-register tables are regenerated from the current build into Lean literals on "
+         "every run; 12 clauses x 7 architectures (stack pointer emitted with the word width, endianness, every convention register "
+         "emitted with its width, preserved and trashed disjoint, sp preserved, ABI argument order, return register, return address, "
+         "stack slot length and offset) are proved by kernel evaluation (decide) against a hand-written ABI table; the same run re-reads "
+         "all 140 (architecture, field) values from the live code and compares each with the table and the ABI (exhaustive).",
+    design_ref="DESIGN.md §6 C20",
+    note="The argument clause for aarch64/aarch64eb is _partial (known finding C20/aarch64*/args). 'Emitted' means emitted on the fixed "
+         "register sweep. IL load/store carry no byte order: what is observed of the translator is its instruction-fetch order and "
+         "address widths, the stored bytes on a memory built from endian(). The ABI table Abi.lean is hand-written and trusted.",
+    technique="regenerated Lean literals + decide; hand-written ABI specification; exhaustive three-way comparison"),
+ "C16": dict(
+    category="proof",
+    text="Lean 4 theorems over a mirror model of lib/memory/backing.rs: for every well-formed memory and every region with "
+         "address+length < 2^64 (empty included) set_memory never panics, keeps the sections sorted, pairwise disjoint and non-empty and "
+         "overrides the byte map on exactly the written range; by induction over arbitrary histories of set_memory/set32 every address "
+         "reads the byte and permissions of the most recent covering region (none if never covered); get equals the bytes assembled in "
+         "the memory's endianness and is None - never a panic - iff the width is unusable or a byte is unmapped; get32/set32 inside one "
+         "section assemble / override exactly four bytes. Tied to the Rust code by a three-way per-operation differential run "
+         "(falcon / model / byte-map spec) over whole histories on every check.",
+    design_ref="DESIGN.md §6 C16",
+    note="Trusted: Lean kernel; axioms propext, Classical.choice, Quot.sound; harness+driver+check. Side condition address+length < 2^64; "
+         "a region containing the byte 2^64-1 is the known finding C16/topwin/top/*. The 'within one section' premise of the 32-bit clause "
+         "is evaluated on the model's section list, which the sections operation compares with falcon's.",
+    technique="Lean 4 proof of a mirror model + differential correspondence check"),
+ "C15": dict(
+    category="proof",
+    text="Lean 4 theorems about a mirror model of ControlFlowGraph/Block editing (including merge's rounds in code order) and blockify: "
+         "WF (edges join existing blocks, keys unique, instruction indices unique and below counters, entry/exit valid) holds after every "
+         "finite history; lists stay sorted; merge is total and preserves the (prefix-closed) language of operation/guard sequences from "
+         "the entry; append concatenates entry-to-exit languages; insert adds a disjoint isomorphic copy; no call panics. The model is "
+         "tied to control_flow_graph.rs, block.rs, graph/mod.rs and block_translation_result.rs by comparing full graph dumps after every "
+         "operation of generated histories, on every check.",
+    design_ref="DESIGN.md §6 C15",
+    note="The four maps of graph::Graph are abstracted to (blocks, edges) with derived queries; falcon's real queries are compared at "
+         "every step (the container invariant itself is C11). Counter overflow is not modelled. Bounded language digests are search "
+         "support only. Axioms: propext, Classical.choice, Quot.sound.",
+    technique="Lean 4 proof of a mirror model + differential correspondence check on operation histories"),
+ "C06": dict(
+    category="translation_validation",
+    text="Per generated machine-code program and state: the function recovered by the real translate_function_extended is executed by "
+         "falcon's executor and compared - address trace, final registers, memory and next pc - with the single-step reference (lift one "
+         "instruction at pc with the same translator, run it, follow its successors), both runs being recomputed in Lean from the dumped "
+         "IL with the Lean IL semantics; the structural clauses (no dangling edge or entry, entry block at the function address, every "
+         "instruction exactly once) are decided by a Lean checker with a soundness theorem. The assembly algorithm itself is not modelled.",
+    design_ref="DESIGN.md §6 C06",
+    note="Validation of sampled programs (MIPS/MIPSEL/x86/amd64 mini-assemblers, window-straddling layouts, branches into lifted blocks, "
+         "manual edges), not a proof over all programs. Per-instruction lifting is shared by both sides, so instruction semantics cancel out.",
+    technique="per-program trace validation with Lean IL semantics + Lean-verified structural checker"),
+ "C07": dict(
+    category="proof",
+    text="Lean theorems over a mirror model of State::execute / Driver::step: execute = OpSem for typed operations; step = the relational "
+         "small-step semantics Step under the premise (one width per scalar name, distinct instruction indices, guards exclusive and "
+         "exhaustive); determinism; type preservation; run n = Steps n for every n; frame theorems (everything not written is unchanged); "
+         "each error kind (undefined scalar, unmapped memory, zero divisor, intrinsic, no guard holds) and that an error returns no state; "
+         "link to the function-level relation FStep used by the verified checkers. Tied to the code by per-step three-way comparison of "
+         "real Driver::step traces over paged memory (with/without backing) with the model and the executable relational spec.",
+    design_ref="DESIGN.md §6 C07",
+    note="Premise: programs typed by one width per scalar name, distinct instruction indices per block, GuardsOK; memory is C08's byte "
+         "array; accesses with a+len >= 2^64 are excluded (edge64); the translator call at absent branch targets is an oracle (lift). "
+         "A lone conditional edge is followed unchecked (step_single_edge_unchecked): outside the property's premise, documented.",
+    technique="Lean 4 proof of a mirror model + refinement to a relational semantics; executable spec in the driver"),
+ "C14": dict(
+    category="translation_validation",
+    text="Every output g of analysis::dead_code_elimination on generated and amd64-lifted functions f is judged by the Lean checker "
+         "dceCheck (g = f with assigns/loads replaced by nop, plus an inductive dead-set certificate). Theorem dceCheck_sound: acceptance "
+         "implies that from any start configuration every fault-free FStep run of f of any length is matched step for step by a run of g "
+         "through the same (block, position)s, with equal memory and the same store event at every step, states agreeing outside the dead "
+         "set and on every name at indirect branches, intrinsics and ends of successor-less blocks; only_nops gives the shape clause. "
+         "Rejected outputs are searched for a concrete diverging execution (Lean executor model and falcon's executor).",
+    design_ref="DESIGN.md §6 C14",
+    note="Trusted: Lean kernel; axioms propext, Classical.choice, Quot.sound; the FStep/execute semantics of Exec.lean (tied to falcon's "
+         "executor by C07); FIL printer/reader and harness. The certificate computation is untrusted. The checker is sufficient, not "
+         "complete. Known finding C14/alias-width/* (one name at two widths).",
+    technique="Lean-verified translation-validation checker run on the real DCE outputs + differential execution"),
 }
 
 checks = []
